@@ -303,7 +303,9 @@ func (cmd *mainCmd) Run(args []string) error {
 		if !ok {
 			if opts.Print {
 				if _, err := cmd.Stdout.Write(content); err != nil {
-					return err
+					// Keep the errors recorded for earlier files.
+					errors = append(errors, err)
+					break
 				}
 			}
 			log.Printf("%s: skipped", filename)
